@@ -671,11 +671,11 @@ Section Sem.
         else do mv <- eval_opt m; do e <- prim_total (p_assertion mv); raise e
       | SRaise _ ex ca =>
         do ev_ <- eval_opt ex;
+        do cv <- eval_opt ca;
         match ev_ with
         | None => do c <- cur_exc;
                   match c with Some e => raise e | None => raise_builtin "RuntimeError" "No active exception to reraise" end
         | Some e0 =>
-          do cv <- eval_opt ca;
           do e <- prim_total (p_as_exc e0);
           match cv with None => raise e | Some c => do e' <- prim_total (p_with_cause e c); raise e' end
         end
@@ -998,7 +998,7 @@ Section Sem.
       match ts with [] => ret tt | t :: r => rstore t v ;; rstore_all r v end.
 
     (* enclosing loop and function, for the payload of break/continue/return events *)
-    Record rsctx := { r_loop : option (nid * Z); r_fn : option (nid * string) }.
+    Record rsctx := { r_loop : option (nid * bool) (* true: for loop *); r_fn : option (nid * string) }.
 
     Definition exit_event (leaf : string) (on : bool) (n : nid) : M unit :=
       if on then announce true true n ;; ev "exit_control_flow" n [] ;; ev leaf n [] ;; ret tt else ret tt.
@@ -1009,7 +1009,7 @@ Section Sem.
         if cov (if isbreak then "_break" else "_continue") then
           announce true true n ;;
           ev "exit_control_flow" l [] ;;
-          (if Z.eqb ty 0 then ev "exit_while" l [] else ev "exit_for" l []) ;;
+          (if ty then ev "exit_for" l [] else ev "exit_while" l []) ;;
           do r <- ev (if isbreak then "_break" else "_continue") n [AI (Z.of_nat l)];
           do t <- truth (sel2 r (p_const (KBool true)));
           if t then (fun s => ((if isbreak then Brk else Cnt), s)) else ret tt
@@ -1051,12 +1051,13 @@ Section Sem.
           do l <- lookup x; do r <- reval (rc_str rc0) e;
           do v <- prim (p_inplace o l r);
           do v' <- raug_events on n o l r v; assign x v'
+        (* coverage policy: nothing inside the target of an augmented assignment is covered (plain evaluation) *)
         | TAttr _ be x =>
-          do b <- reval rc_tgt be; do l <- prim (p_getattr b x); do r <- reval (rc_str rc0) e;
+          do b <- eval call be; do l <- prim (p_getattr b x); do r <- reval (rc_str rc0) e;
           do v <- prim (p_inplace o l r);
           do v' <- raug_events on n o l r v; prim (p_setattr b x v')
         | TSub _ be ie =>
-          do b <- reval rc_tgt be; do i <- reval rc_tgt ie; do l <- prim (p_getitem b i); do r <- reval (rc_str rc0) e;
+          do b <- eval call be; do i <- eval call ie; do l <- prim (p_getitem b i); do r <- reval (rc_str rc0) e;
           do v <- prim (p_inplace o l r);
           do v' <- raug_events on n o l r v; prim (p_setitem b i v')
         end
@@ -1071,7 +1072,7 @@ Section Sem.
         (if t then rexec_list k body else rexec_list k orelse) ;;
         exit_event "exit_if" (cov "exit_if") n
       | SWhile n c body orelse =>
-        let k' := {| r_loop := Some (n, 0%Z); r_fn := r_fn k |} in
+        let k' := {| r_loop := Some (n, false); r_fn := r_fn k |} in
         (fix loop (j : nat) : M unit :=
            match j with
            | 0 => fun s => (Fuel, s)
@@ -1097,7 +1098,7 @@ Section Sem.
                 else ret tt)
            end) bound
       | SFor n x it body orelse =>
-        let k' := {| r_loop := Some (n, 1%Z); r_fn := r_fn k |} in
+        let k' := {| r_loop := Some (n, true); r_fn := r_fn k |} in
         do iterable <- reval rc0 it;
         do itv <- prim (p_iter iterable);
         (fix loop (j : nat) : M unit :=
@@ -1110,7 +1111,7 @@ Section Sem.
                           do hi <- ev "enter_control_flow" n [AB (match nx with Some _ => true | None => false end)];
                           do lo <- ev "enter_for" n [match nx with Some v => AV v | None => AO "StopIteration()" end; AV iterable];
                           match lo, hi with
-                          | Some a, _ => ret (Some (arg_val a))
+                          | Some a, _ => ret (match nx with Some _ => Some (arg_val a) | None => None end)
                           | None, Some _ => stuck "enter_control_flow override of a for loop: outside the model"
                           | None, None => ret nx
                           end
@@ -1143,7 +1144,7 @@ Section Sem.
           (* the message is evaluated only if the assertion fails (and then once) *)
           do vt <- test_value rc0 c;
           announce true true n ;;
-          do r <- ev "_assert" n [AV (fst vt); ANone];
+          do r <- ev "_assert" n [AV (fst vt); AV (p_const KNone)];
           do t <- decide vt r None;
           if t then ret tt else do mv2 <- reval_opt rc0 m; do e <- prim_total (p_assertion mv2); raise e
         else
@@ -1238,6 +1239,23 @@ Section Sem.
 
       Ltac mnorm := repeat (setoid_rewrite bind_assoc || setoid_rewrite bind_ret_l).
       Ltac mstep := apply bind_cong; [reflexivity|intros ?].
+      (* normalise the head of both sides only (no rewriting under binders) *)
+      Lemma meq_rw_l {A} (m m' n : M A) : meq m m' -> meq m' n -> meq m n.
+      Proof. intros E1 E2 s. rewrite E1. apply E2. Qed.
+      Lemma meq_rw_r {A} (m n n' : M A) : meq n n' -> meq m n' -> meq m n.
+      Proof. intros E1 E2 s. rewrite E1. apply E2. Qed.
+      Ltac mtop := repeat match goal with
+        | |- meq (bind (bind ?m ?k) ?h) _ => apply (meq_rw_l _ _ _ (bind_assoc m k h)); cbv beta
+        | |- meq (bind (ret ?a) ?k) _ => apply (meq_rw_l _ _ _ (bind_ret_l a k)); cbv beta
+        | |- meq _ (bind (bind ?m ?k) ?h) => apply (meq_rw_r _ _ _ (bind_assoc m k h)); cbv beta
+        | |- meq _ (bind (ret ?a) ?k) => apply (meq_rw_r _ _ _ (bind_ret_l a k)); cbv beta
+        end.
+      Ltac ms := mtop; mstep.
+      Lemma raise_builtin_bind {A B} cls msg (k : A -> M B) : meq (bind (raise_builtin cls msg) k) (raise_builtin cls msg).
+      Proof.
+        Transparent raise_builtin prim_total. unfold raise_builtin. Opaque raise_builtin.
+        intros s. unfold bind, prim_total, raise. destruct (p_exc cls msg (w s)). reflexivity. Opaque prim_total.
+      Qed.
 
       Lemma eval_test_unfold e :
         eval_test call e =
@@ -1324,7 +1342,7 @@ Section Sem.
 
       Ltac msteps := repeat (apply bind_cong; [reflexivity|intros ?]).
       (* keep the building blocks folded during setoid rewriting; [ufold] opens one explicitly *)
-      Opaque rnot_events announce ev notify RE CF truth prim prim_total lookup raise_builtin.
+      Opaque rnot_events announce ev notify RE CF truth prim prim_total lookup raise_builtin raug_events.
 
       Ltac split_opts := repeat match goal with x : option earg |- _ => destruct x end.
 
@@ -1635,7 +1653,606 @@ Section Sem.
           + rewrite instr_rc_cons. cbn [rlinks]. rewrite eval_rcmps_unfold. rewrite IHe. mstep. rewrite IHr2. reflexivity.
       Qed.
 
-      Transparent rnot_events announce ev notify RE CF truth prim prim_total lookup raise_builtin.
+      (* ---- statements *)
+      Definition kc (k : rsctx) : sctx :=
+        {| loop := match r_loop k with Some (l, isfor) => Some (l, if isfor then 1%Z else 0%Z) | None => None end; fn := r_fn k |}.
+      Definition ok_oe (o : option expr) : bool := match o with Some e => ok_e e | None => true end.
+      Definition ok_t (t : target) : bool :=
+        match t with TName _ => true | TAttr _ e _ => ok_e e | TSub _ e i => ok_e e && ok_e i end.
+      Definition is_some {A} (o : option A) : bool := match o with Some _ => true | None => false end.
+
+      (* guard clauses "aug_assign" and "assert_msg_eager" (and "chain_eager" through ok_e) *)
+      Fixpoint ok_s (s : stmt) : bool :=
+        match s with
+        | SExpr e => ok_e e
+        | SAssign _ ts e => forallb ok_t ts && ok_e e
+        | SAug _ t o e => ok_e e && negb (cov "write" || cov (snake (binop_cls o ++ "Assign")))
+        | SIf _ c b o | SWhile _ c b o => ok_e c && ok_ss b && ok_ss o
+        | SFor _ _ it b o => ok_e it && ok_ss b && ok_ss o
+        | SBreak _ | SContinue _ | SPass | SDef _ _ _ => true
+        | SAssert _ c m => ok_e c && ok_oe m && negb (cov "_assert" && is_some m)
+        | SRaise _ e c => ok_oe e && ok_oe c
+        | STry _ b hs o f => ok_ss b && ok_hs hs && ok_ss o && ok_ss f
+        | SReturn _ e => ok_oe e
+        end
+      with ok_ss (ss : stmts) : bool := match ss with Snil => true | Scons s r => ok_s s && ok_ss r end
+      with ok_hs (hs : handlers) : bool :=
+        match hs with Hnil => true | Hcons ty _ b r => ok_oe ty && ok_ss b && ok_hs r end.
+
+      Notation RE_ := (proj1 refine_expr).
+      Notation REL_ := (proj1 (proj2 refine_expr)).
+
+      Lemma refine_oe o c : src_oe o = true -> ok_oe o = true ->
+        meq (eval_opt call (instr_oe H (ic c) o)) (reval_opt c o).
+      Proof.
+        destruct o as [e|]; intros Hs Ho; [|reflexivity]. simpl in *. unfold eval_opt, reval_opt.
+        rewrite (RE_ e Hs Ho c). reflexivity.
+      Qed.
+
+      Lemma store_refine t v : src_t t = true -> ok_t t = true ->
+        meq (store call (instr_t H t) v) (rstore t v).
+      Proof.
+        destruct t as [x|n e x|n e i]; intros Hs Ho; simpl in *; [reflexivity| |].
+        - change tctx with (ic rc_tgt). rewrite (RE_ e Hs Ho rc_tgt). reflexivity.
+        - apply andb_true_iff in Hs; destruct Hs as [Hs1 Hs2]. apply andb_true_iff in Ho; destruct Ho as [Ho1 Ho2].
+          change tctx with (ic rc_tgt). rewrite (RE_ e Hs1 Ho1 rc_tgt). mstep. rewrite (RE_ i Hs2 Ho2 rc_tgt). reflexivity.
+      Qed.
+
+      Lemma store_all_refine ts v : forallb src_t ts = true -> forallb ok_t ts = true ->
+        meq (store_all call (map (instr_t H) ts) v) (rstore_all ts v).
+      Proof.
+        induction ts as [|t r IH]; intros Hs Ho; simpl in *; [reflexivity|].
+        apply andb_true_iff in Hs; destruct Hs as [Hs1 Hs2]. apply andb_true_iff in Ho; destruct Ho as [Ho1 Ho2].
+        rewrite (store_refine t v Hs1 Ho1). mstep. apply IH; assumption.
+      Qed.
+
+      Lemma exec_list_nil : exec_list call bound Snil = ret tt. Proof. reflexivity. Qed.
+      Lemma exec_list_cons s r : exec_list call bound (Scons s r) = bind (exec call bound s) (fun _ => exec_list call bound r).
+      Proof. reflexivity. Qed.
+      Lemma rexec_list_nil k : rexec_list k Snil = ret tt. Proof. reflexivity. Qed.
+      Lemma rexec_list_cons k s r : rexec_list k (Scons s r) = bind (rexec k s) (fun _ => rexec_list k r).
+      Proof. reflexivity. Qed.
+
+      Lemma exec_list_app a b :
+        meq (exec_list call bound (sapp a b)) (bind (exec_list call bound a) (fun _ => exec_list call bound b)).
+      Proof.
+        induction a as [|s r IH].
+        - change (sapp Snil b) with b. rewrite exec_list_nil, bind_ret_l. reflexivity.
+        - change (sapp (Scons s r) b) with (Scons s (sapp r b)). rewrite !exec_list_cons.
+          rewrite bind_assoc. mstep. apply IH.
+      Qed.
+
+      Lemma test_covered leaf n c : src_e c = true -> ok_e c = true ->
+        meq (bind (bind (eval call (instr_e H c0 c)) (fun v => rt_enter leaf n v)) (fun r => truth r))
+            (bind (test_value rc0 c) (fun vt =>
+             bind (announce true true n) (fun _ =>
+             bind (ev "enter_control_flow" n [AV (fst vt)]) (fun hi =>
+             bind (ev leaf n [AV (fst vt)]) (fun lo => decide vt lo hi))))).
+      Proof.
+        intros Hs Ho. change c0 with (ic rc0). rewrite (RE_ c Hs Ho rc0).
+        unfold test_value, rt_enter, decide. setoid_rewrite announce_on_cf.
+        destruct (jumpy c); [setoid_rewrite reval_tv_value|]; mnorm; msteps; cbn [fst snd]; split_opts;
+          unfold sel3; rewrite ?truth_ret; reflexivity.
+      Qed.
+
+      Lemma test_uncovered c : src_e c = true -> ok_e c = true ->
+        meq (eval_test call (instr_e H c0 c)) (bind (reval_tv rc0 c) (fun ct => ret (snd ct))).
+      Proof.
+        intros Hs Ho. rewrite eval_test_value. change c0 with (ic rc0). rewrite (RE_ c Hs Ho rc0).
+        setoid_rewrite reval_tv_value. mnorm. reflexivity.
+      Qed.
+
+      Lemma rt_event_exit ep leaf n :
+        (ep = "_exit_if_" /\ leaf = "exit_if") ->
+        meq (bind (bind (eval call (REvent ep n)) (fun _ => ret tt)) (fun _ => ret tt)) (exit_event leaf true n).
+      Proof.
+        intros [-> ->]. rewrite eval_unfold. cbn [eval_body]. unfold rt_event, exit_event. rewrite announce_on_cf. mnorm.
+        mstep. mstep. mstep. mstep. reflexivity.
+      Qed.
+
+      Lemma instr_SIf k n c body orelse :
+        instr_s H k (SIf n c body orelse) =
+        (let c' := instr_e H c0 c in
+         let test := if sel H "enter_if" then REnterIf n c' else c' in
+         let body' := instr_ss H k body in
+         let orelse' := instr_ss H k orelse in
+         if sel H "exit_if" then
+           SIf n test (sapp body' (s1 (rstmt (REvent "_exit_if_" n)))) (sapp orelse' (s1 (rstmt (REvent "_exit_if_" n))))
+         else SIf n test body' orelse').
+      Proof. reflexivity. Qed.
+      Lemma instr_SWhile k n c body orelse :
+        instr_s H k (SWhile n c body orelse) =
+        (let k' := {| loop := Some (n, 0%Z); fn := fn k |} in
+         let c' := instr_e H c0 c in
+         let test := if sel H "enter_while" then REnterWhile n c' else c' in
+         let body' := instr_ss H k' body in
+         let orelse' := instr_ss H k orelse in
+         SWhile n test body' (if sel H "normal_exit_while" then sapp orelse' (s1 (rstmt (REvent "_exit_while_" n))) else orelse')).
+      Proof. reflexivity. Qed.
+      Lemma instr_SFor k n x it body orelse :
+        instr_s H k (SFor n x it body orelse) =
+        (let k' := {| loop := Some (n, 1%Z); fn := fn k |} in
+         let it' := instr_e H c0 it in
+         let body' := instr_ss H k' body in
+         let orelse' := instr_ss H k orelse in
+         if sel H "enter_for" then SFor n x (RGen n it') body' orelse'
+         else if sel H "normal_exit_for" then SFor n x it' body' (sapp orelse' (s1 (rstmt (REvent "_exit_for_" n))))
+         else SFor n x it' body' orelse').
+      Proof. reflexivity. Qed.
+      Lemma instr_STry k n body hs orelse final :
+        instr_s H k (STry n body hs orelse final) =
+        (let body' := instr_ss H k body in
+         let body'' := if sel H "enter_try" then Scons (rstmt (REvent "_try_" n)) body' else body' in
+         let orelse' := instr_ss H k orelse in
+         let orelse'' := if sel H "clean_exit_try" then sapp orelse' (s1 (rstmt (REvent "_end_try_" n))) else orelse' in
+         let hs' := instr_hs H k n hs in
+         let hs'' := if sel H "enter_try" || sel H "clean_exit_try" then
+                       match hs' with Hnil => Hcons None None (s1 (SRaise 0 None None)) Hnil | _ => hs' end
+                     else hs' in
+         STry n body'' hs'' orelse'' (instr_ss H k final)).
+      Proof. reflexivity. Qed.
+      Lemma instr_ss_nil k : instr_ss H k Snil = Snil. Proof. reflexivity. Qed.
+      Lemma instr_ss_cons k s r : instr_ss H k (Scons s r) = Scons (instr_s H k s) (instr_ss H k r). Proof. reflexivity. Qed.
+      Lemma instr_hs_nil k t : instr_hs H k t Hnil = Hnil. Proof. reflexivity. Qed.
+      Lemma instr_hs_cons k t ty name body rest :
+        instr_hs H k t (Hcons ty name body rest) =
+        (let ty' := instr_oe H c0 ty in
+         let body' := instr_ss H k body in
+         Hcons ty' name (if sel H "exception" then Scons (rstmt (RExc t ty' name)) body' else body') (instr_hs H k t rest)).
+      Proof. reflexivity. Qed.
+
+      Lemma exec_SIf n c body orelse :
+        exec call bound (SIf n c body orelse) =
+        bind (eval_test call c) (fun t => if t then exec_list call bound body else exec_list call bound orelse).
+      Proof. reflexivity. Qed.
+      Lemma rexec_SIf k n c body orelse :
+        rexec k (SIf n c body orelse) =
+        bind (if cov "enter_if" then
+                bind (test_value rc0 c) (fun vt =>
+                bind (announce true true n) (fun _ =>
+                bind (ev "enter_control_flow" n [AV (fst vt)]) (fun hi =>
+                bind (ev "enter_if" n [AV (fst vt)]) (fun lo => decide vt lo hi))))
+              else bind (reval_tv rc0 c) (fun ct => ret (snd ct))) (fun t =>
+        bind (if t then rexec_list k body else rexec_list k orelse) (fun _ =>
+        exit_event "exit_if" (cov "exit_if") n)).
+      Proof. reflexivity. Qed.
+
+      Section WLoop.
+      Variables (c : expr) (body orelse : stmts).
+      Fixpoint wloop (j : nat) : M unit :=
+        match j with
+        | 0 => fun s => (Fuel, s)
+        | S j' =>
+          bind (eval_test call c) (fun t =>
+          if t then
+            bind (catch (exec_list call bound body)) (fun r =>
+            match r with
+            | Ok _ | Cnt => wloop j'
+            | Brk => ret tt
+            | other => reraise other
+            end)
+          else exec_list call bound orelse)
+        end.
+      End WLoop.
+      Lemma exec_SWhile n c body orelse : exec call bound (SWhile n c body orelse) = wloop c body orelse bound.
+      Proof. reflexivity. Qed.
+
+      Section RWLoop.
+      Variables (k : rsctx) (n : nid) (c : expr) (body orelse : stmts).
+      Fixpoint rwloop (j : nat) : M unit :=
+        match j with
+        | 0 => fun s => (Fuel, s)
+        | S j' =>
+          bind (if cov "enter_while" then
+                  bind (test_value rc0 c) (fun vt =>
+                  bind (announce true true n) (fun _ =>
+                  bind (ev "enter_control_flow" n [AV (fst vt)]) (fun hi =>
+                  bind (ev "enter_while" n [AV (fst vt)]) (fun lo => decide vt lo hi))))
+                else bind (reval_tv rc0 c) (fun ct => ret (snd ct))) (fun t =>
+          if t then
+            bind (catch (rexec_list {| r_loop := Some (n, false); r_fn := r_fn k |} body)) (fun r =>
+            match r with
+            | Ok _ | Cnt => rwloop j'
+            | Brk => ret tt
+            | other => reraise other
+            end)
+          else
+            bind (rexec_list k orelse) (fun _ =>
+            if cov "normal_exit_while" then
+              bind (announce true true n) (fun _ => bind (ev "exit_control_flow" n []) (fun _ =>
+              bind (ev "exit_while" n []) (fun _ => bind (ev "normal_exit_while" n []) (fun _ => ret tt))))
+            else ret tt))
+        end.
+      End RWLoop.
+      Lemma rexec_SWhile k n c body orelse : rexec k (SWhile n c body orelse) = rwloop k n c body orelse bound.
+      Proof. reflexivity. Qed.
+
+      Section FLoop.
+      Variables (x : string) (gen : option nid) (itv iterable : val) (body orelse : stmts).
+      Fixpoint floop (j : nat) : M unit :=
+        match j with
+        | 0 => fun s => (Fuel, s)
+        | S j' =>
+          bind (for_next gen itv iterable) (fun nx =>
+          match nx with
+          | None => exec_list call bound orelse
+          | Some v =>
+            bind (assign x v) (fun _ =>
+            bind (catch (exec_list call bound body)) (fun r =>
+            match r with
+            | Ok _ | Cnt => floop j'
+            | Brk => ret tt
+            | other => reraise other
+            end))
+          end)
+        end.
+      End FLoop.
+      Lemma exec_SFor n x it body orelse :
+        exec call bound (SFor n x it body orelse) =
+        bind (eval call (match it with RGen _ inner => inner | _ => it end)) (fun iterable =>
+        bind (prim (p_iter iterable)) (fun itv =>
+        floop x (match it with RGen n _ => Some n | _ => None end) itv iterable body orelse bound)).
+      Proof. reflexivity. Qed.
+
+      Definition for_exit (n : nid) : M unit :=
+        bind (announce true true n) (fun _ => bind (ev "exit_control_flow" n []) (fun _ =>
+        bind (ev "exit_for" n []) (fun _ => bind (ev "normal_exit_for" n []) (fun _ => ret tt)))).
+
+      Section RFLoop.
+      Variables (k : rsctx) (n : nid) (x : string) (itv iterable : val) (body orelse : stmts).
+      Fixpoint rfloop (j : nat) : M unit :=
+        match j with
+        | 0 => fun s => (Fuel, s)
+        | S j' =>
+          bind (prim (p_next itv)) (fun nx =>
+          bind (if cov "enter_for" then
+                  bind (announce true true n) (fun _ =>
+                  bind (ev "enter_control_flow" n [AB (match nx with Some _ => true | None => false end)]) (fun hi =>
+                  bind (ev "enter_for" n [match nx with Some v => AV v | None => AO "StopIteration()" end; AV iterable]) (fun lo =>
+                  match lo, hi with
+                  | Some a, _ => ret (match nx with Some _ => Some (arg_val a) | None => None end)
+                  | None, Some _ => stuck "enter_control_flow override of a for loop: outside the model"
+                  | None, None => ret nx
+                  end)))
+                else ret nx) (fun nx' =>
+          match nx' with
+          | None =>
+            bind (if cov "enter_for" then for_exit n else ret tt) (fun _ =>
+            bind (rexec_list k orelse) (fun _ =>
+            if negb (cov "enter_for") && cov "normal_exit_for" then for_exit n else ret tt))
+          | Some v =>
+            bind (assign x v) (fun _ =>
+            bind (catch (rexec_list {| r_loop := Some (n, true); r_fn := r_fn k |} body)) (fun r =>
+            match r with
+            | Ok _ | Cnt => rfloop j'
+            | Brk => ret tt
+            | other => reraise other
+            end))
+          end))
+        end.
+      End RFLoop.
+      Lemma rexec_SFor k n x it body orelse :
+        rexec k (SFor n x it body orelse) =
+        bind (reval rc0 it) (fun iterable =>
+        bind (prim (p_iter iterable)) (fun itv => rfloop k n x itv iterable body orelse bound)).
+      Proof. reflexivity. Qed.
+
+      Lemma instr_not_gen e c : src_e e = true ->
+        (match instr_e H c e with RGen _ inner => inner | _ => instr_e H c e end) = instr_e H c e
+        /\ (match instr_e H c e with RGen n _ => Some n | _ => @None nid end) = None.
+      Proof.
+        intros Hs. destruct e; try discriminate Hs; cbn [instr_e];
+          try match goal with k : const |- _ => destruct k end;
+          repeat match goal with |- context [if ?b then _ else _] => destruct b end; split; reflexivity.
+      Qed.
+
+      Lemma exec_STry n body hs orelse final :
+        exec call bound (STry n body hs orelse final) =
+        bind (catch (exec_list call bound body)) (fun r =>
+        bind (catch (match r with
+                     | Ok _ => exec_list call bound orelse
+                     | Exc e => exec_handlers call bound e hs
+                     | other => reraise other
+                     end)) (fun r' =>
+        bind (catch (exec_list call bound final)) (fun rf =>
+        match rf with Ok _ => reraise r' | other => reraise other end))).
+      Proof. reflexivity. Qed.
+      Lemma rexec_STry k n body hs orelse final :
+        rexec k (STry n body hs orelse final) =
+        bind (catch (bind (if cov "enter_try" then bind (announce true true n) (fun _ => bind (ev "enter_try" n []) (fun _ => ret tt)) else ret tt)
+                          (fun _ => rexec_list k body))) (fun r =>
+        bind (catch (match r with
+                     | Ok _ => bind (rexec_list k orelse) (fun _ =>
+                               if cov "clean_exit_try" then bind (announce true true n) (fun _ => bind (ev "clean_exit_try" n []) (fun _ => ret tt)) else ret tt)
+                     | Exc e => rexec_handlers k n e hs
+                     | other => reraise other
+                     end)) (fun r' =>
+        bind (catch (rexec_list k final)) (fun rf =>
+        match rf with Ok _ => reraise r' | other => reraise other end))).
+      Proof. reflexivity. Qed.
+      (* the handler "except: raise" that the instrumenter adds to a handler-less try statement *)
+      Lemma bare_reraise e :
+        meq (exec_handlers call bound e (Hcons None None (s1 (SRaise 0 None None)) Hnil)) (raise e).
+      Proof. intros [w1 g1 f1 x1 e1]. reflexivity. Qed.
+      Lemma exec_handlers_nil e : exec_handlers call bound e Hnil = raise e. Proof. reflexivity. Qed.
+      Lemma rexec_handlers_nil k t e : rexec_handlers k t e Hnil = raise e. Proof. reflexivity. Qed.
+
+      Lemma exec_handlers_cons e ty name body rest :
+        exec_handlers call bound e (Hcons ty name body rest) =
+        bind (match ty with None => ret true | Some te => bind (eval call te) (fun cls => prim (p_exc_match e cls)) end) (fun m =>
+        if m then
+          bind (match name with Some x => assign x e | None => ret tt end) (fun _ =>
+          bind (push_exc e) (fun _ =>
+          bind (catch (exec_list call bound body)) (fun r =>
+          bind pop_exc (fun _ =>
+          bind (match name with Some x => unbind x | None => ret tt end) (fun _ => reraise r)))))
+        else exec_handlers call bound e rest).
+      Proof. reflexivity. Qed.
+      Lemma rexec_handlers_cons k tryn e ty name body rest :
+        rexec_handlers k tryn e (Hcons ty name body rest) =
+        bind (reval_opt rc0 ty) (fun tv =>
+        bind (match tv with None => ret true | Some cls => prim (p_exc_match e cls) end) (fun m =>
+        if m then
+          bind (match name with Some x => assign x e | None => ret tt end) (fun _ =>
+          bind (push_exc e) (fun _ =>
+          bind (catch (bind (if cov "exception" then
+                               bind (reval_opt rc0 ty) (fun tv2 =>
+                               bind (match name with Some x => bind (lookup x) (fun v => ret (AV v)) | None => ret ANone end) (fun nv =>
+                               bind (announce true true tryn) (fun _ =>
+                               bind (ev "exception" tryn [match tv2 with Some v => AV v | None => ANone end; nv]) (fun _ => ret tt))))
+                             else ret tt) (fun _ => rexec_list k body))) (fun r =>
+          bind pop_exc (fun _ =>
+          bind (match name with Some x => unbind x | None => ret tt end) (fun _ => reraise r)))))
+        else rexec_handlers k tryn e rest)).
+      Proof. reflexivity. Qed.
+
+      Theorem refine_stmt :
+        (forall s, src_s s = true -> ok_s s = true -> forall k, meq (exec call bound (instr_s H (kc k) s)) (rexec k s))
+        /\ (forall ss, src_ss ss = true -> ok_ss ss = true -> forall k, meq (exec_list call bound (instr_ss H (kc k) ss)) (rexec_list k ss))
+        /\ (forall hs, src_hs hs = true -> ok_hs hs = true -> forall k tryn e,
+              meq (exec_handlers call bound e (instr_hs H (kc k) tryn hs)) (rexec_handlers k tryn e hs)).
+      Proof.
+        apply stmt_all_ind.
+        - (* SExpr *) intros e Hs Ho k. simpl in Hs, Ho. cbn [instr_s exec rexec].
+          change c0 with (ic rc0). rewrite (RE_ e Hs Ho rc0). reflexivity.
+        - (* SAssign *) intros n ts e Hs Ho k. simpl in Hs, Ho.
+          apply andb_true_iff in Hs; destruct Hs as [Hs1 Hs2]. apply andb_true_iff in Ho; destruct Ho as [Ho1 Ho2].
+          cbn [instr_s rexec]. change (with_str c0) with (ic (rc_str rc0)). change (sel H "write") with (cov "write").
+          destruct (cov "write"); cbn [exec].
+          + rewrite eval_unfold; cbn [eval_body]. rewrite (RE_ e Hs2 Ho2 (rc_str rc0)). mnorm. mstep.
+            unfold rt_write. rewrite announce_on_nocf. mnorm. mstep. mstep. mstep. apply store_all_refine; assumption.
+          + rewrite (RE_ e Hs2 Ho2 (rc_str rc0)). mnorm. mstep. apply store_all_refine; assumption.
+        - (* SAug *) intros n t o e Hs Ho k. simpl in Hs, Ho.
+          apply andb_true_iff in Hs; destruct Hs as [Hs1 Hs2]. apply andb_true_iff in Ho; destruct Ho as [Ho1 Ho2].
+          apply negb_true_iff in Ho2.
+          cbn [instr_s rexec]. change (with_str c0) with (ic (rc_str rc0)).
+          change (sel H "write" || sel H (snake (binop_cls o ++ "Assign"))) with (cov "write" || cov (snake (binop_cls o ++ "Assign"))).
+          rewrite Ho2. cbn [exec]. Transparent raug_events. unfold raug_events. Opaque raug_events.
+          destruct t as [x|tn be x|tn be ie].
+          + mstep. rewrite (RE_ e Hs2 Ho1 (rc_str rc0)). mstep. mstep. mnorm. try rewrite bind_ret_l. reflexivity.
+          + mstep. mstep. rewrite (RE_ e Hs2 Ho1 (rc_str rc0)). mstep. mstep. mnorm. try rewrite bind_ret_l. reflexivity.
+          + mstep. mstep. mstep. rewrite (RE_ e Hs2 Ho1 (rc_str rc0)). mstep. mstep. mnorm. try rewrite bind_ret_l. reflexivity.
+        Opaque exec exec_list exec_handlers rexec rexec_list rexec_handlers.
+        - (* SIf *) intros n c body IHb orelse IHo Hs Ho k. simpl in Hs, Ho.
+          apply andb_true_iff in Hs; destruct Hs as [Hs12 Hs3]. apply andb_true_iff in Hs12; destruct Hs12 as [Hs1 Hs2].
+          apply andb_true_iff in Ho; destruct Ho as [Ho12 Ho3]. apply andb_true_iff in Ho12; destruct Ho12 as [Ho1 Ho2].
+          specialize (IHb Hs2 Ho2 k). specialize (IHo Hs3 Ho3 k).
+          rewrite instr_SIf, rexec_SIf. cbv zeta. change (sel H "enter_if") with (cov "enter_if"). change (sel H "exit_if") with (cov "exit_if").
+          assert (Hexit : forall ss, meq (exec_list call bound (sapp ss (s1 (rstmt (REvent "_exit_if_" n)))))
+                                         (bind (exec_list call bound ss) (fun _ => exit_event "exit_if" true n))).
+          { intros ss. rewrite exec_list_app. mstep. unfold s1, rstmt. rewrite exec_list_cons, exec_list_nil.
+            change (exec call bound (SExpr (REvent "_exit_if_" n))) with (bind (eval call (REvent "_exit_if_" n)) (fun _ => ret tt)).
+            apply rt_event_exit. split; reflexivity. }
+          assert (Hoff : forall m : M unit, meq (bind m (fun _ => exit_event "exit_if" false n)) m).
+          { intros m. unfold exit_event. rewrite <- (bind_ret_r m) at 2. mstep. destruct a. reflexivity. }
+          destruct (cov "enter_if") eqn:C1; destruct (cov "exit_if") eqn:C2; rewrite exec_SIf.
+          + rewrite eval_test_unfold. rewrite eval_unfold. cbn [eval_body]. rewrite (test_covered "enter_if" n c Hs1 Ho1).
+            mnorm. msteps.
+            destruct a3; rewrite Hexit; [rewrite IHb|rewrite IHo]; reflexivity.
+          + rewrite eval_test_unfold. rewrite eval_unfold. cbn [eval_body]. rewrite (test_covered "enter_if" n c Hs1 Ho1).
+            mnorm. msteps. destruct a3; rewrite Hoff; [apply IHb|apply IHo].
+          + rewrite (test_uncovered c Hs1 Ho1). mnorm. mstep. cbn [snd].
+            destruct (snd a); rewrite Hexit; [rewrite IHb|rewrite IHo]; reflexivity.
+          + rewrite (test_uncovered c Hs1 Ho1). mnorm. mstep.
+            destruct (snd a); rewrite Hoff; [apply IHb|apply IHo].
+        - (* SWhile *) intros n c body IHb orelse IHo Hs Ho k. simpl in Hs, Ho.
+          apply andb_true_iff in Hs; destruct Hs as [Hs12 Hs3]. apply andb_true_iff in Hs12; destruct Hs12 as [Hs1 Hs2].
+          apply andb_true_iff in Ho; destruct Ho as [Ho12 Ho3]. apply andb_true_iff in Ho12; destruct Ho12 as [Ho1 Ho2].
+          specialize (IHb Hs2 Ho2 {| r_loop := Some (n, false); r_fn := r_fn k |}). specialize (IHo Hs3 Ho3 k).
+          rewrite instr_SWhile, exec_SWhile, rexec_SWhile. cbv zeta.
+          change (sel H "enter_while") with (cov "enter_while"). change (sel H "normal_exit_while") with (cov "normal_exit_while").
+          change {| loop := Some (n, 0%Z); fn := fn (kc k) |} with (kc {| r_loop := Some (n, false); r_fn := r_fn k |}).
+          assert (Hexit : meq (exec_list call bound (if cov "normal_exit_while" then sapp (instr_ss H (kc k) orelse) (s1 (rstmt (REvent "_exit_while_" n))) else instr_ss H (kc k) orelse))
+                              (bind (rexec_list k orelse) (fun _ =>
+                               if cov "normal_exit_while" then
+                                 bind (announce true true n) (fun _ => bind (ev "exit_control_flow" n []) (fun _ =>
+                                 bind (ev "exit_while" n []) (fun _ => bind (ev "normal_exit_while" n []) (fun _ => ret tt))))
+                               else ret tt))).
+          { destruct (cov "normal_exit_while").
+            - rewrite exec_list_app, IHo. mstep. unfold s1, rstmt. rewrite exec_list_cons, exec_list_nil.
+              change (exec call bound (SExpr (REvent "_exit_while_" n))) with (bind (eval call (REvent "_exit_while_" n)) (fun _ => ret tt)).
+              rewrite eval_unfold. cbn [eval_body]. unfold rt_event. rewrite announce_on_cf. mnorm. msteps. reflexivity.
+            - rewrite IHo. rewrite <- (bind_ret_r (rexec_list k orelse)) at 1. mstep. destruct a. reflexivity. }
+          assert (Htest : meq (eval_test call (if cov "enter_while" then REnterWhile n (instr_e H c0 c) else instr_e H c0 c))
+                              (if cov "enter_while" then
+                                 bind (test_value rc0 c) (fun vt =>
+                                 bind (announce true true n) (fun _ =>
+                                 bind (ev "enter_control_flow" n [AV (fst vt)]) (fun hi =>
+                                 bind (ev "enter_while" n [AV (fst vt)]) (fun lo => decide vt lo hi))))
+                               else bind (reval_tv rc0 c) (fun ct => ret (snd ct)))).
+          { destruct (cov "enter_while").
+            - rewrite eval_test_unfold. rewrite eval_unfold. cbn [eval_body]. apply (test_covered "enter_while" n c Hs1 Ho1).
+            - apply (test_uncovered c Hs1 Ho1). }
+          set (test := if cov "enter_while" then REnterWhile n (instr_e H c0 c) else instr_e H c0 c) in *.
+          set (orelse' := if cov "normal_exit_while" then sapp (instr_ss H (kc k) orelse) (s1 (rstmt (REvent "_exit_while_" n))) else instr_ss H (kc k) orelse) in *.
+          assert (Hloop : forall j, meq (wloop test (instr_ss H (kc {| r_loop := Some (n, false); r_fn := r_fn k |}) body) orelse' j) (rwloop k n c body orelse j)).
+          { induction j as [|j IHj]; [reflexivity|].
+            cbn [wloop rwloop]. rewrite Htest. mstep. destruct a.
+            + rewrite IHb. mstep. destruct a; try reflexivity; apply IHj.
+            + apply Hexit. }
+          apply Hloop.
+        - (* SFor *) intros n x it body IHb orelse IHo Hs Ho k. simpl in Hs, Ho.
+          apply andb_true_iff in Hs; destruct Hs as [Hs12 Hs3]. apply andb_true_iff in Hs12; destruct Hs12 as [Hs1 Hs2].
+          apply andb_true_iff in Ho; destruct Ho as [Ho12 Ho3]. apply andb_true_iff in Ho12; destruct Ho12 as [Ho1 Ho2].
+          specialize (IHb Hs2 Ho2 {| r_loop := Some (n, true); r_fn := r_fn k |}). specialize (IHo Hs3 Ho3 k).
+          rewrite instr_SFor, rexec_SFor. cbv zeta.
+          change (sel H "enter_for") with (cov "enter_for"). change (sel H "normal_exit_for") with (cov "normal_exit_for").
+          change {| loop := Some (n, 1%Z); fn := fn (kc k) |} with (kc {| r_loop := Some (n, true); r_fn := r_fn k |}).
+          assert (Hev : meq (bind (eval call (REvent "_exit_for_" n)) (fun _ => ret tt)) (for_exit n)).
+          { rewrite eval_unfold. cbn [eval_body]. unfold rt_event, for_exit. rewrite announce_on_cf. mnorm. msteps. reflexivity. }
+          destruct (cov "enter_for") eqn:C1; [|destruct (cov "normal_exit_for") eqn:C2]; rewrite exec_SFor.
+          + change c0 with (ic rc0). rewrite (RE_ it Hs1 Ho1 rc0). mstep. mstep.
+            assert (Hloop : forall j, meq (floop x (Some n) a0 a (instr_ss H (kc {| r_loop := Some (n, true); r_fn := r_fn k |}) body) (instr_ss H (kc k) orelse) j)
+                                          (rfloop k n x a0 a body orelse j)); [|apply Hloop].
+            induction j as [|j IHj]; [reflexivity|].
+            cbn [floop rfloop]. rewrite C1. unfold for_next. mnorm. mstep. destruct a1 as [v|].
+            * unfold rt_enter_for. rewrite announce_on_cf. mnorm. mstep. mstep. mstep. mstep.
+              destruct a4, a3; try (intros s; reflexivity); rewrite !bind_ret_l; mstep; rewrite IHb; mstep;
+                match goal with r : res unit |- _ => destruct r end; try reflexivity; apply IHj.
+            * unfold rt_enter_for. rewrite announce_on_cf. mnorm. mstep. mstep. mstep. mstep.
+              destruct a4, a3; try (intros s; reflexivity); rewrite !bind_ret_l; cbn [negb andb];
+                unfold for_exit; rewrite announce_on_cf; mnorm; msteps; rewrite IHo;
+                rewrite <- (bind_ret_r (rexec_list k orelse)) at 1; mstep;
+                match goal with u : unit |- _ => destruct u end; reflexivity.
+          + destruct (instr_not_gen it c0 Hs1) as [G1 G2]. rewrite G1, G2.
+            change c0 with (ic rc0). rewrite (RE_ it Hs1 Ho1 rc0). mstep. mstep.
+            assert (Hloop : forall j, meq (floop x None a0 a (instr_ss H (kc {| r_loop := Some (n, true); r_fn := r_fn k |}) body)
+                                                 (sapp (instr_ss H (kc k) orelse) (s1 (rstmt (REvent "_exit_for_" n)))) j)
+                                          (rfloop k n x a0 a body orelse j)); [|apply Hloop].
+            induction j as [|j IHj]; [reflexivity|].
+            cbn [floop rfloop]. rewrite C1, C2. unfold for_next. mstep. rewrite bind_ret_l. destruct a1 as [v|].
+            * mstep. rewrite IHb. mstep. match goal with r : res unit |- _ => destruct r end; try reflexivity; apply IHj.
+            * rewrite bind_ret_l. cbn [negb andb]. rewrite exec_list_app, IHo. mstep. unfold s1, rstmt.
+              rewrite exec_list_cons, exec_list_nil. Transparent exec. cbn [exec]. Opaque exec. rewrite bind_assoc. setoid_rewrite bind_ret_l. apply Hev.
+          + destruct (instr_not_gen it c0 Hs1) as [G1 G2]. rewrite G1, G2.
+            change c0 with (ic rc0). rewrite (RE_ it Hs1 Ho1 rc0). mstep. mstep.
+            assert (Hloop : forall j, meq (floop x None a0 a (instr_ss H (kc {| r_loop := Some (n, true); r_fn := r_fn k |}) body) (instr_ss H (kc k) orelse) j)
+                                          (rfloop k n x a0 a body orelse j)); [|apply Hloop].
+            induction j as [|j IHj]; [reflexivity|].
+            cbn [floop rfloop]. rewrite C1, C2. unfold for_next. mstep. rewrite bind_ret_l. destruct a1 as [v|].
+            * mstep. rewrite IHb. mstep. match goal with r : res unit |- _ => destruct r end; try reflexivity; apply IHj.
+            * rewrite bind_ret_l. cbn [negb andb]. rewrite IHo. rewrite <- (bind_ret_r (rexec_list k orelse)) at 1. mstep.
+              match goal with u : unit |- _ => destruct u end; reflexivity.
+        - (* SBreak *) intros n _ _ k. cbn [instr_s]. Transparent rexec. cbn [rexec]. Opaque rexec. unfold rbrk.
+          change (loop (kc k)) with (match r_loop k with Some (l, isfor) => Some (l, if isfor then 1%Z else 0%Z) | None => None end).
+          destruct (r_loop k) as [[l ty]|]; [|reflexivity].
+          change (sel H "_break") with (cov "_break"). destruct (cov "_break"); [|reflexivity].
+          rewrite exec_SIf, eval_test_unfold, eval_unfold. cbn [eval_body]. unfold rt_brk. rewrite announce_on_cf.
+          rewrite (bind_assoc (RE n) (fun _ => CF n)). destruct ty; cbn [Z.eqb Pos.eqb]; do 6 (mtop; mstep); mtop;
+            (destruct a4; [unfold s1; rewrite exec_list_cons, exec_list_nil; intros s; reflexivity | rewrite exec_list_nil; reflexivity]).
+        - (* SContinue *) intros n _ _ k. cbn [instr_s]. Transparent rexec. cbn [rexec]. Opaque rexec. unfold rbrk.
+          change (loop (kc k)) with (match r_loop k with Some (l, isfor) => Some (l, if isfor then 1%Z else 0%Z) | None => None end).
+          destruct (r_loop k) as [[l ty]|]; [|reflexivity].
+          change (sel H "_continue") with (cov "_continue"). destruct (cov "_continue"); [|reflexivity].
+          rewrite exec_SIf, eval_test_unfold, eval_unfold. cbn [eval_body]. unfold rt_brk. rewrite announce_on_cf.
+          rewrite (bind_assoc (RE n) (fun _ => CF n)). destruct ty; cbn [Z.eqb Pos.eqb]; do 6 (mtop; mstep); mtop;
+            (destruct a4; [unfold s1; rewrite exec_list_cons, exec_list_nil; intros s; reflexivity | rewrite exec_list_nil; reflexivity]).
+        - (* SPass *) intros _ _ k. reflexivity.
+        - (* SAssert *) intros n c m Hs Ho k. simpl in Hs, Ho.
+          apply andb_true_iff in Hs; destruct Hs as [Hs1 Hs2].
+          apply andb_true_iff in Ho; destruct Ho as [Ho12 Ho3]. apply andb_true_iff in Ho12; destruct Ho12 as [Ho1 Ho2].
+          cbn [instr_s]. Transparent rexec exec. cbn [rexec]. change (sel H "_assert") with (cov "_assert").
+          destruct (cov "_assert") eqn:C1; cbn [exec].
+          Opaque rexec exec.
+          + destruct m as [m|]; [discriminate Ho3|]. cbn [instr_oe].
+            rewrite eval_test_unfold, eval_unfold. cbn [eval_body].
+            change c0 with (ic rc0). rewrite (RE_ c Hs1 Ho1 rc0).
+            unfold test_value, rt_assert, decide. setoid_rewrite announce_on_cf.
+            destruct (jumpy c); [setoid_rewrite reval_tv_value|]; mnorm; msteps; cbn [fst snd]; split_opts;
+              unfold sel3, sel2; mtop; repeat rewrite truth_ret; mtop; reflexivity.
+          + rewrite (test_uncovered c Hs1 Ho1). mnorm. mstep. destruct (snd a); [reflexivity|]. rewrite bind_ret_l.
+            change c0 with (ic rc0). rewrite (refine_oe m rc0 Hs2 Ho2). reflexivity.
+        - (* SRaise *) intros n ex ca Hs Ho k. simpl in Hs, Ho.
+          apply andb_true_iff in Hs; destruct Hs as [Hs1 Hs2]. apply andb_true_iff in Ho; destruct Ho as [Ho1 Ho2].
+          cbn [instr_s]. Transparent rexec exec. cbn [rexec]. change (sel H "_raise") with (cov "_raise").
+          destruct (cov "_raise") eqn:C1; unfold rstmt; cbn [exec].
+          Opaque rexec exec.
+          + rewrite eval_unfold. cbn [eval_body].
+            change (match instr_oe H c0 ex with Some a => bind (eval call a) (fun v => ret (Some v)) | None => ret None end) with (eval_opt call (instr_oe H c0 ex)).
+            change (match instr_oe H c0 ca with Some a => bind (eval call a) (fun v => ret (Some v)) | None => ret None end) with (eval_opt call (instr_oe H c0 ca)).
+            change c0 with (ic rc0). rewrite (refine_oe ex rc0 Hs1 Ho1). mtop. mstep.
+            rewrite (refine_oe ca rc0 Hs2 Ho2). mtop. mstep.
+            unfold rt_raise. rewrite announce_on_cf. ms. ms. ms. mtop.
+            destruct a3; [intros s; reflexivity|]. mtop.
+            destruct a as [e0|]; [|ms; destruct a; [intros s; reflexivity|apply raise_builtin_bind]].
+            ms. destruct a0; [ms|]; intros s; reflexivity.
+          + change c0 with (ic rc0). rewrite (refine_oe ex rc0 Hs1 Ho1). mstep.
+            rewrite (refine_oe ca rc0 Hs2 Ho2). mstep. rewrite bind_ret_l. reflexivity.
+        - (* STry *) intros n body IHb hs IHh orelse IHo final IHf Hs Ho k. simpl in Hs, Ho.
+          apply andb_true_iff in Hs; destruct Hs as [Hs123 Hs4]. apply andb_true_iff in Hs123; destruct Hs123 as [Hs12 Hs3].
+          apply andb_true_iff in Hs12; destruct Hs12 as [Hs1 Hs2].
+          apply andb_true_iff in Ho; destruct Ho as [Ho123 Ho4]. apply andb_true_iff in Ho123; destruct Ho123 as [Ho12 Ho3].
+          apply andb_true_iff in Ho12; destruct Ho12 as [Ho1 Ho2].
+          specialize (IHb Hs1 Ho1 k). specialize (IHh Hs2 Ho2 k n). specialize (IHo Hs3 Ho3 k). specialize (IHf Hs4 Ho4 k).
+          rewrite instr_STry, rexec_STry. cbv zeta. rewrite exec_STry.
+          change (sel H "enter_try") with (cov "enter_try"). change (sel H "clean_exit_try") with (cov "clean_exit_try").
+          assert (Hb : meq (exec_list call bound (if cov "enter_try" then Scons (rstmt (REvent "_try_" n)) (instr_ss H (kc k) body) else instr_ss H (kc k) body))
+                           (bind (if cov "enter_try" then bind (announce true true n) (fun _ => bind (ev "enter_try" n []) (fun _ => ret tt)) else ret tt)
+                                 (fun _ => rexec_list k body))).
+          { destruct (cov "enter_try").
+            - unfold rstmt. rewrite exec_list_cons. Transparent exec. cbn [exec]. Opaque exec.
+              rewrite eval_unfold. cbn [eval_body]. unfold rt_event. rewrite announce_on_cf. ms. ms. ms. mtop. apply IHb.
+            - mtop. apply IHb. }
+          assert (Hor : meq (exec_list call bound (if cov "clean_exit_try" then sapp (instr_ss H (kc k) orelse) (s1 (rstmt (REvent "_end_try_" n))) else instr_ss H (kc k) orelse))
+                            (bind (rexec_list k orelse) (fun _ =>
+                               if cov "clean_exit_try" then bind (announce true true n) (fun _ => bind (ev "clean_exit_try" n []) (fun _ => ret tt)) else ret tt))).
+          { destruct (cov "clean_exit_try").
+            - rewrite exec_list_app, IHo. mstep. unfold s1, rstmt. rewrite exec_list_cons, exec_list_nil. Transparent exec. cbn [exec]. Opaque exec.
+              rewrite eval_unfold. cbn [eval_body]. unfold rt_event. rewrite announce_on_cf. ms. ms. ms. mtop. reflexivity.
+            - rewrite IHo. rewrite <- (bind_ret_r (rexec_list k orelse)) at 1. mstep. destruct a. reflexivity. }
+          assert (Hh : forall e, meq (exec_handlers call bound e
+                                        (if cov "enter_try" || cov "clean_exit_try" then
+                                           match instr_hs H (kc k) n hs with Hnil => Hcons None None (s1 (SRaise 0 None None)) Hnil | _ => instr_hs H (kc k) n hs end
+                                         else instr_hs H (kc k) n hs))
+                                     (rexec_handlers k n e hs)).
+          { intros e. destruct (cov "enter_try" || cov "clean_exit_try"); [|apply IHh].
+            destruct hs as [|ty name hb rest].
+            - rewrite instr_hs_nil, rexec_handlers_nil. apply bare_reraise.
+            - rewrite <- IHh. rewrite instr_hs_cons. cbv zeta. reflexivity. }
+          apply bind_cong; [apply catch_cong; exact Hb|intros r].
+          apply bind_cong; [apply catch_cong; destruct r; try reflexivity; [exact Hor|apply Hh]|intros r'].
+          apply bind_cong; [apply catch_cong; exact IHf|intros rf]. reflexivity.
+        - (* SReturn *) intros n e Hs Ho k. simpl in Hs, Ho.
+          assert (Hv : meq (match instr_oe H c0 e with Some a => eval call a | None => ret (p_const KNone) end)
+                           (match e with Some a => reval rc0 a | None => ret (p_const KNone) end)).
+          { destruct e as [a|]; [|reflexivity]. cbn [instr_oe]. change c0 with (ic rc0). apply (RE_ a Hs Ho rc0). }
+          cbn [instr_s]. Transparent rexec exec. cbn [rexec]. change (fn (kc k)) with (r_fn k).
+          destruct (r_fn k) as [[f name]|]; [change (sel H "_return") with (cov "_return"); destruct (cov "_return")|]; cbn [exec].
+          Opaque rexec exec.
+          + rewrite eval_unfold. cbn [eval_body]. rewrite Hv. ms. unfold rt_return. rewrite announce_on_cf. ms. ms. ms. ms. mtop. reflexivity.
+          + rewrite Hv. reflexivity.
+          + rewrite Hv. reflexivity.
+        - (* SDef *) intros n fid name _ _ k. reflexivity.
+        - (* Snil *) intros _ _ k. reflexivity.
+        - (* Scons *) intros s IHs r IHr Hs Ho k. simpl in Hs, Ho.
+          apply andb_true_iff in Hs; destruct Hs as [Hs1 Hs2]. apply andb_true_iff in Ho; destruct Ho as [Ho1 Ho2].
+          rewrite instr_ss_cons, exec_list_cons, rexec_list_cons, (IHs Hs1 Ho1 k). mstep. apply (IHr Hs2 Ho2 k).
+        - (* Hnil *) intros _ _ k tryn e. reflexivity.
+        - (* Hcons *) intros ty name body IHb rest IHr Hs Ho k tryn e. simpl in Hs, Ho.
+          apply andb_true_iff in Hs; destruct Hs as [Hs12 Hs3]. apply andb_true_iff in Hs12; destruct Hs12 as [Hs1 Hs2].
+          apply andb_true_iff in Ho; destruct Ho as [Ho12 Ho3]. apply andb_true_iff in Ho12; destruct Ho12 as [Ho1 Ho2].
+          specialize (IHb Hs2 Ho2 k). specialize (IHr Hs3 Ho3 k tryn e).
+          rewrite instr_hs_cons, rexec_handlers_cons. cbv zeta. rewrite exec_handlers_cons.
+          change (sel H "exception") with (cov "exception").
+          assert (Hm : meq (match instr_oe H c0 ty with None => ret true | Some te => bind (eval call te) (fun cls => prim (p_exc_match e cls)) end)
+                           (bind (reval_opt rc0 ty) (fun tv => match tv with None => ret true | Some cls => prim (p_exc_match e cls) end))).
+          { destruct ty as [te|]; cbn [instr_oe reval_opt]; [|mtop; reflexivity].
+            change c0 with (ic rc0). rewrite (RE_ te Hs1 Ho1 rc0). mtop. reflexivity. }
+          rewrite Hm. mtop. mstep. mstep. destruct a0; [|exact IHr]. mstep. mstep.
+          apply bind_cong; [apply catch_cong|intros r; reflexivity].
+          destruct (cov "exception").
+          * unfold rstmt. rewrite exec_list_cons. Transparent exec. cbn [exec]. Opaque exec.
+            rewrite eval_unfold. cbn [eval_body].
+            assert (Ht : meq (match instr_oe H c0 ty with Some te => bind (eval call te) (fun v => ret (AV v)) | None => ret ANone end)
+                             (bind (reval_opt rc0 ty) (fun tv2 => ret (match tv2 with Some v => AV v | None => ANone end)))).
+            { destruct ty as [te|]; cbn [instr_oe reval_opt]; [|mtop; reflexivity].
+              change c0 with (ic rc0). rewrite (RE_ te Hs1 Ho1 rc0). mtop. reflexivity. }
+            rewrite Ht. ms. ms. unfold rt_exc. rewrite announce_on_cf. ms. ms. ms. mtop. apply IHb.
+          * mtop. apply IHb.
+      Qed.
+
+      Transparent rnot_events announce ev notify RE CF truth prim prim_total lookup raise_builtin raug_events.
+      Transparent exec exec_list exec_handlers rexec rexec_list rexec_handlers.
     End Refinement.
 
   End Ref.
